@@ -124,7 +124,10 @@ PROTOCOL_HASH_KEY = b"vgi_rpc.protocol_hash"
 # (wire framing) and from any catalog-level data-version semantics.
 PROTOCOL_VERSION_KEY = b"vgi_rpc.protocol_version"
 
-SEMVER_REGEX = re.compile(r"^(0|[1-9]\d*)\.(0|[1-9]\d*)\.(0|[1-9]\d*)$")
+# ``\A`` / ``\Z`` rather than ``^`` / ``$`` (``$`` also matches before a trailing
+# newline) and ``[0-9]`` rather than ``\d`` (which in a str pattern matches every
+# Unicode decimal digit): a canonical version is ASCII digits and dots only.
+SEMVER_REGEX = re.compile(r"\A(0|[1-9][0-9]*)\.(0|[1-9][0-9]*)\.(0|[1-9][0-9]*)\Z")
 
 
 def parse_version(value: str) -> tuple[int, int, int]:
